@@ -11,7 +11,7 @@ TB = ("Trusted: CPython semantics of the inherited builtins, typeshed signatures
 CHECKS = {
     "C06": dict(
         category="other",
-        technique="grammar stratification check + LALR(1) conflict-freeness + terminal priority rule for keywords inside L(IDENT) + stack-effect abstract interpretation of DumpAST per production",
+        technique="grammar stratification check + LALR(1) conflict-freeness + terminal priority rule for keywords inside L(IDENT) + stack-effect abstract interpretation of DumpAST per production + memo-key completeness of process-wide tables on the parse path",
         text="Decides precedence/associativity as a property of cel.lark (stratification against CEL's level table, LALR(1) table "
              "built without conflicts with the options read from CELParser.__init__), the keyword-literal retyping table, the ignored "
              "terminals, and for every production and child shape the stack effect and rendering of DumpAST. Holds for all expressions "
@@ -22,7 +22,7 @@ CHECKS = {
 
 CHECKS["C01"] = dict(
     category="other",
-    technique="operator dispatch matrix + path-based interval extraction of the range decorators/checkers + sign/magnitude abstract evaluation + IEEE class x sign evaluation of the zero-divisor branch + exception-effect analysis + def-use dependence",
+    technique="operator dispatch matrix + path-based interval extraction of the range decorators/checkers + sign/magnitude abstract evaluation + IEEE class x sign evaluation of the zero-divisor branch and of unary minus + exception-effect analysis + def-use dependence",
     text="Decides the structural clauses: every int/uint arithmetic cell (direct and reflected) is under the class's range check whose accepted "
          "interval is exactly int64/uint64; division/remainder bodies truncate toward zero / take the dividend's sign for all sign combinations; "
          "every exception class those cells raise is converted by the interpreter's rule method and by result(); each numeric result depends on both operands. "
@@ -41,7 +41,7 @@ CHECKS["C04"] = dict(
 
 CHECKS["C02"] = dict(
     category="other",
-    technique="finite-domain decision tables by kind-level abstract interpretation + path rule + exception-effect analysis of reducers and rule methods",
+    technique="finite-domain decision tables by kind-level abstract interpretation + path rule + exception-effect analysis of reducers and rule methods + exception arrivals vs the conversion boundary of compiled operands",
     text="Extracts the complete decision tables of logical_and/or/not/condition over {true,false,error,non-bool} from their bodies and compares every cell "
          "(and commutativity) with the table in the statement; proves by a path rule that ?: visits exactly the selected branch; proves with the effect "
          "engine that every all/exists fold uses a reducer that cannot raise, that the interpreter converts the logical functions' TypeError, and that no "
@@ -52,7 +52,7 @@ CHECKS["C02"] = dict(
 
 CHECKS["C13"] = dict(
     category="other",
-    technique="operator dispatch matrix resolved through the MRO against CEL's operator typing table; return-expression analysis",
+    technique="operator dispatch matrix resolved through the MRO against CEL's operator typing table; return-expression analysis; path rule on the interpreter's macro arms (every path selected for a macro returns its class or an error)",
     text="For every row of CEL's operator typing table restricted to celpy's types the resolved cell (direct, and reflected where reachable) must be a "
          "repository method whose every return builds the result class; function_*, macro_*, boolean(), operator_in, has() must return CEL classes; the "
          "type-name table must denote those classes. Complete over the operator x type matrix; holds for all operand values because it constrains every return.",
@@ -87,7 +87,7 @@ CHECKS["C08"] = dict(
 
 CHECKS["C09"] = dict(
     category="other",
-    technique="dispatch matrix + exception-effect analysis + guard/idiom rules on the index, lookup, duplicate-key and macro implementations",
+    technique="dispatch matrix + exception-effect analysis + guard/idiom rules on the index, lookup, duplicate-key and macro implementations; loop-exit rule for macros without an absorbing element",
     text="Decides the 'errors, never values' clause: the list index cell rejects negative indexes; indexing errors are converted by both runners; both map "
          "constructors test duplicates before inserting; invalid regular expressions become error values; map lookups decide presence by membership. Adds shape "
          "checks tying size/startsWith/endsWith/contains and each macro implementation to the primitive their definition needs. The laws relating several "
@@ -96,7 +96,7 @@ CHECKS["C09"] = dict(
     note=TB)
 CHECKS["C10"] = dict(
     category="other",
-    technique="must-pass-through analysis of the constructor ladders against the range decorators (interval extraction), path enumeration with symbolic environment: every constructing path passes a range test inside the target interval",
+    technique="must-pass-through analysis of the constructor ladders against the range decorators (interval extraction), path enumeration with symbolic environment: every constructing path passes a range test inside the target interval; absent-vs-falsy rule on scalar constructors; signed floor-division rule on the offset rendering",
     text="Every arm of IntType/UintType.__new__ that builds from a foreign kind selects a converter wrapped by the class's range decorator (or is a recorded "
          "exemption); manual guards are accepted only if the interval they accept lies inside the target range; doubles truncate toward zero; hex arms use radix 16 "
          "with the right prefix length; DurationType construction is dominated by the +-315,576,000,000 s test; text conversions use UTF-8. Round-trip identities are not decided.",
@@ -105,7 +105,7 @@ CHECKS["C10"] = dict(
 
 CHECKS["C07"] = dict(
     category="other",
-    technique="regex-AST analysis of the escape tokenizer and literal terminals, table comparison against CEL's escape table, radix/offset and delimiter-slice extraction, literal-language probe of generated code",
+    technique="regex-AST analysis of the escape tokenizer and literal terminals, table comparison against CEL's escape table, radix/offset and delimiter-slice extraction, literal-language probe of generated code; absent-vs-falsy and text-arm range rules on the literal constructors",
     text="Decides necessary conditions of literal decoding: the escape tokenizer matches every character; the escape table and the numeric escape forms are CEL's and "
          "are decoded with the matching offset and radix; delimiters are removed by prefix-consistent fixed slices only; both engines map each literal terminal to the "
          "same constructor; characters of bytes literals are UTF-8 encoded; numeric spellings admitted by the lexer are not re-lexed by Python in generated code. "
@@ -115,7 +115,7 @@ CHECKS["C07"] = dict(
 
 CHECKS["C12"] = dict(
     category="other",
-    technique="finite decision table of Referent.value by abstract interpretation; pool/selection analysis of the tie-break; who-may-read rule on the raw value field; dataflow/shape rules for macro activations",
+    technique="finite decision table of Referent.value by abstract interpretation; pool/selection analysis of the tie-break; who-may-read rule on the raw value field; path rule with attribute-store tracking on Referent.clone (every field the getter reads is carried); dataflow/shape rules for macro activations",
     text="Narrow claim: decides the preference container > value > annotation inside a Referent (complete table), that among equally long matches the innermost scope wins, "
          "that bindings are loaded in front of declarations, and that both engines evaluate a macro body under the current activation plus exactly the iteration variable(s). "
          "The search over package prefixes and competing dotted names is a loop over run-time name sets and is NOT decided.",
@@ -152,7 +152,7 @@ CHECKS["C17"] = dict(
 
 CHECKS["C20"] = dict(
     category="other",
-    technique="finite exit-status decision tables by kind-level abstract interpretation of main()'s null-input arm and process_json_doc(); fold, dominance and framing rules on the NDJSON loop; absence-vs-emptiness rule for --arg values",
+    technique="finite exit-status decision tables by kind-level abstract interpretation of main()'s null-input arm and process_json_doc(); fold, dominance and framing rules on the NDJSON loop; absence-vs-emptiness rule for --arg values; path rule on the default package (stored only where --json-document is absent)",
     text="Extracts the complete exit-status tables over {true,false,other value,evaluation error} x {-b, no -b} plus malformed JSON and a syntax error and compares them with the "
          "reference; checks that the NDJSON status is a max-fold from 0, that each document alone is bound before evaluate(), that documents are framed by line feeds only, "
          "and that output goes through CELJSONEncoder unless --format. The printed text for arbitrary values is not decided.",
@@ -171,7 +171,7 @@ CHECKS["C11"] = dict(
 
 CHECKS["C18"] = dict(
     category="other",
-    technique="abstract interpretation of the emitted text over CEL precedence classes (least fixpoint over abstract nesting levels), with primitive classes obtained by parsing every emitted template with cel.lark",
+    technique="abstract interpretation of the emitted text over CEL precedence classes (least fixpoint over abstract nesting levels), with primitive classes obtained by parsing every emitted template with cel.lark; argument-write effect analysis (no translator function writes into the filter it is given)",
     text="Decides composition safety for all filter trees by induction: the connective table, monotone nesting level of every recursive call, and - for every join at every abstract "
          "level {0,1,>=2} and every class of child text (nested connectives by fixpoint, primitive clauses by parsing each rewriter's templates with holes replaced by atoms) - "
          "whether the child keeps its grouping inside the joined text; plus negation scope of prefixed clauses and that every clause/return template is CEL. "
@@ -191,7 +191,7 @@ CHECKS["C19"] = dict(
 
 CHECKS["C03"] = dict(
     category="other",
-    technique="sibling cross-check of the two visitor classes against the grammar; operator chain agreement; template placeholder/binding and child-path wiring analysis; exception-effect arrivals vs the conversion boundary of result()",
+    technique="sibling cross-check of the two visitor classes against the grammar; operator chain agreement; template placeholder/binding and child-path wiring analysis; exception-effect arrivals vs the conversion boundary of result(); regex-AST anchoring rule for text recognition in Phase 2; per-call-state rules of the compiled runner",
     text="Decides necessary conditions of runner agreement: both engines cover every grammar rule and the same macros (each with its runtime helper); every operator token reaches the same "
          "Python operator in both; every template placeholder is bound, each operand placeholder to the child in that operand position, operands passed in order; every exception class "
          "that can arrive in result() is caught there and has an exact-class message entry; raw token text never lands in code position. Equality of computed values for all "
